@@ -5,9 +5,9 @@ from vlib.core import natlist
 
 OBLIGATIONS = dict(
     prop_file='Properties/C13.v',
-    glue=['Glue/ShapesGlue.v', 'Glue/Pin_p_shapes.v'] + ['Glue/Pin_fp_C13.v'],
+    glue=['Glue/ShapesGlue.v', 'Glue/Pin_p_shapes.v'] + ['Glue/Pin_fp_C13.v', 'Glue/MaskGuardsGlue.v'],
     extra=['Model/ShapesDoc.vo'],
-    gen_items=['p_shapes', 'pat_vq_forward', 'pat_fsq_forward', 'pat_lfq_forward', 'fp_C13'],
+    gen_items=['p_shapes', 'pat_vq_forward', 'pat_fsq_forward', 'pat_lfq_forward', 'g_vq_zero_padded_input', 'g_vq_mask_output', 'g_vq_mask_indices', 'fp_C13'],
 )
 ASSUMPTIONS = [
     'torch shape semantics of rearrange with grouped axes, squeeze(), squeeze(dim), right-aligned broadcasting, stack / cat are modelled in Model/Shapes.v',
